@@ -44,9 +44,13 @@ def build_schemas(raw_schemas: dict[str, Mapping[str, Any]], raw_components: Map
 
     # Build initial IR for all schemas found in components. Schemas that were cut off at the depth limit
     # deep inside another schema are parsed again from depth 0 (each pass completes at least those).
-    for _ in range(len(raw_schemas)):
-        pending = [n for n in raw_schemas if _unparsed(n) and _unparsed(NameSanitizer.sanitize_class_name(n))]
-        if not pending:
+    def _cut_off(key: str) -> bool:
+        existing = context.parsed_schemas.get(key)
+        return existing is not None and existing._max_depth_exceeded_marker
+
+    pending, previous = list(raw_schemas), None
+    for _ in range(len(raw_schemas) + 1):
+        if not pending or pending == previous:  # done, or the last pass made no progress (e.g. limit 0)
             break
         for n in pending:
             # Check if schema is already registered (either by original name or sanitized name)
@@ -54,6 +58,9 @@ def build_schemas(raw_schemas: dict[str, Mapping[str, Any]], raw_components: Map
             if _unparsed(n) and _unparsed(sanitized_n):
                 context.unified_cycle_context.schema_states.pop(n, None)
                 _parse_schema(n, raw_schemas[n], context, allow_self_reference=True)
+        # later passes only revisit depth-limit placeholders, never schemas that are simply not registered
+        previous = pending
+        pending = [n for n in raw_schemas if _cut_off(n) or _cut_off(NameSanitizer.sanitize_class_name(n))]
 
     # Post-condition check: each raw schema must be registered under either its original or sanitized name
     for n in raw_schemas:
